@@ -334,9 +334,55 @@ func c16Concurrent(obs *c16Obs, cuts int) func() {
 	}
 }
 
+// c16ResyncConcurrent: a full resynchronisation (the peer lost the session / the node
+// re-created its peer object) runs while subscriptions of the node change.
+func c16ResyncConcurrent(obs *c16Obs, variant int) func() {
+	return func() {
+		*obs = c16Obs{}
+		st := c16Setup()
+		bad := func(rule, class, want, got string) {
+			obs.problems = append(obs.problems, [3]string{rule, class, "want " + want + " got " + got})
+		}
+		st.a.Subscribed("c1", "t1")
+		st.a.Subscribed("c3", "t3")
+		st.a.Subscribed("c4", "t1")
+		st.a.Unsubscribed("c4", "t1")
+		vsched.Settle()
+		vsched.Go("lose-session", func() {
+			if variant%2 == 0 {
+				st.b.Fail("A")
+				st.b.Join("A")
+			} else {
+				st.a.Fail("B")
+				st.a.Join("B")
+			}
+		})
+		hellos := st.nw.Hellos
+		vsched.Go("emit-subs", func() {
+			if variant >= 2 {
+				// the changes start once the new handshake has been answered, i.e. while the
+				// node decides about / performs the resynchronisation
+				vsched.WaitUntil("handshake-answered", func() bool { return st.nw.Hellos > hellos })
+			}
+			st.a.Unsubscribed("c1", "t1")
+			st.a.Subscribed("c2", "$share/g/t2")
+			st.a.SessionTerminated("c3")
+		})
+		st.lostSess = true
+		st.refSub("c2", "$share/g/t2", true)
+		vsched.Settle()
+		c16Check(st, bad)
+		obs.outcome = fmt.Sprint(st.nw.Dials, strings.Join(st.b.ViewOf("A"), ","))
+		st.a.Stop()
+		st.b.Stop()
+		st.c.Stop()
+		vsched.Settle()
+	}
+}
+
 func runC16(c *explore.Ctx) {
 	c.Level = "model_checking"
-	c.Rule = "E2 on the real federation code in-package (eventQueue, peer.initStream, stream read/send loops, Hello, sessionMgr, EventStream server loop, eventStreamHandler, fedSubStore, localSubStore, nodeJoin/nodeFail, hook wrappers) with serf and gRPC replaced by a fault-injectable in-memory transport under the cooperative scheduler: every sequence of 14 operations (emit subscribe / unsubscribe / shared subscribe / session end / message; cut now, cut between delivery and ack, cut after ack, lost Hello reply, link down/up, peer loses the session, third node joins) up to the depth, plus directed prefixes, plus a tree over an 11-operation alphabet in which the node itself sees the peer fail and join again (new peer object and session id while the peer still holds the old session), or the peer sees the node fail and join again as two separate steps (the node's handshakes are refused in between); subscriptions change in between; after every operation at quiescence: the peer's view equals the node's local subscriptions, the queue is fully acknowledged, messages were applied exactly once and in order. E3: concurrent emitters and a fault thread under every schedule with <=k deviations."
+	c.Rule = "E2 on the real federation code in-package (eventQueue, peer.initStream, stream read/send loops, Hello, sessionMgr, EventStream server loop, eventStreamHandler, fedSubStore, localSubStore, nodeJoin/nodeFail, hook wrappers) with serf and gRPC replaced by a fault-injectable in-memory transport under the cooperative scheduler: every sequence of 14 operations (emit subscribe / unsubscribe / shared subscribe / session end / message; cut now, cut between delivery and ack, cut after ack, lost Hello reply, link down/up, peer loses the session, third node joins) up to the depth, plus directed prefixes, plus a tree over an 11-operation alphabet in which the node itself sees the peer fail and join again (new peer object and session id while the peer still holds the old session), or the peer sees the node fail and join again as two separate steps (the node's handshakes are refused in between); subscriptions change in between; after every operation at quiescence: the peer's view equals the node's local subscriptions, the queue is fully acknowledged, messages were applied exactly once and in order. E3: concurrent emitters and a fault thread, and a full resynchronisation (peer lost the session / node re-created its peer object) racing subscription changes of the node, under every schedule with <=k deviations."
 	c.Trusted = []string{"fake transport: whole messages are delivered or an error is returned (gRPC's observable granularity); serf replaced by direct nodeJoin/nodeFail calls; the reconnect loop's back-off timers are not modelled", "vsched"}
 	c.Assumptions = []string{"after the peer lost the session (fail + rejoin) only the resynchronised subscription view and 'no message applied twice' are required"}
 	if rc := replayCase(c); rc != nil {
@@ -384,5 +430,10 @@ func runC16(c *explore.Ctx) {
 	for _, cuts := range []int{1, 2} {
 		obs := &c16Obs{}
 		schedScenario(c, fmt.Sprintf("concurrent-emit-%d-cuts", cuts), bound, func() [][3]string { return obs.problems }, func() string { return obs.outcome }, c16Concurrent(obs, cuts), map[string]any{"cuts": cuts})
+	}
+	for v, name := range []string{"resync-after-the-peer-lost-the-session-vs-subscription-changes", "resync-after-the-node-re-created-its-peer-vs-subscription-changes",
+		"resync-after-the-peer-lost-the-session-vs-subscription-changes-starting-at-the-handshake", "resync-after-the-node-re-created-its-peer-vs-subscription-changes-starting-at-the-handshake"} {
+		obs := &c16Obs{}
+		schedScenario(c, name, bound, func() [][3]string { return obs.problems }, func() string { return obs.outcome }, c16ResyncConcurrent(obs, v), map[string]any{"variant": v})
 	}
 }
